@@ -174,6 +174,10 @@ def run(ctx, rep):
     # ---------------- A5.4
     R = facts.fns.get('fatfs::fs::FileSystem::recalc_free_clusters')
     ST = facts.fns.get('fatfs::fs::FileSystem::stats')
+    merged = False
+    if R is None and ST is not None and any(t.get('callee') == 'fatfs::table::count_free_clusters' for b, t in ST.calls()):
+        R = ST  # the recount was merged into stats(): its statements are judged there
+        merged = True
     if R is None or ST is None:
         rep.machinery('ANCHOR-MISSING recalc_free_clusters / stats')
     else:
@@ -181,7 +185,15 @@ def run(ctx, rep):
         cnt = [(b, t) for b, t in R.calls() if t.get('callee') == 'fatfs::table::count_free_clusters']
         ok_total = bool(cnt) and all(('field', 'total_clusters') in d.of_operand(t['args'][-1]) for b, t in cnt)
         m = Must(facts, lambda f, b, t, names: 'fatfs::fs::FsInfoSector::set_free_cluster_count' in names)
-        ok_store = m.passes(R, set())[0]
+        if merged:
+            # every Ok path through a recount crosses the store (paths that use the cached value do not recount)
+            stores_b = [b for b, t in R.calls() if t.get('callee') == 'fatfs::fs::FsInfoSector::set_free_cluster_count']
+            eb_ = error_blocks(R)
+            rets_ = set(R.return_blocks())
+            ok_store = bool(stores_b) and all(not (set(R.reach_from([t['ret']], cut_blocks=set(stores_b) | eb_)) & rets_)
+                                              for b, t in cnt if t.get('ret') is not None)
+        else:
+            ok_store = m.passes(R, set())[0]
         stores = [(b, t) for b, t in R.calls() if t.get('callee') == 'fatfs::fs::FsInfoSector::set_free_cluster_count']
         ok_val = bool(stores) and all(any(('callsite', cb) in d.of_operand(t['args'][1]) for cb, _ in cnt)
                                       for b, t in stores)
@@ -195,7 +207,7 @@ def run(ctx, rep):
                           'the lazy recount does not store and return count_free_clusters(total_clusters)')
         # stats: the cached value is used only on the Some arm, the recount on the None arm
         d2 = Deps(ST)
-        rc = [b for b, t in ST.calls() if t.get('callee') == R.name]
+        rc = [b for b, t in ST.calls() if t.get('callee') == R.name] if not merged else [b for b, _ in cnt]
         ok2 = False
         for bi in ST.reachable():
             t = ST.blocks[bi]['term']
